@@ -236,18 +236,40 @@ func quant(q string, vars []Term, body Term, patterns [][]Term) Term {
 	b.WriteString(") ")
 	// a trigger must be built from uninterpreted symbols only: drop triggers that mention a defined name
 	// (define-fun macros expand to store/ite terms, which solvers reject or ignore in patterns)
+	// Defined names inside a trigger are therefore abstracted: each is replaced (in the trigger only) by a fresh
+	// constant asserted equal to it, so that E-matching modulo equalities still finds the instances.
 	var usable [][]Term
 	for _, p := range patterns {
-		ok := true
+		var np []Term
 		for _, t := range p {
+			text := nameRe.ReplaceAllStringFunc(t.S, func(name string) string {
+				if _, isDef := currentDefs[name]; !isDef {
+					return name
+				}
+				sort, known := currentDefSorts[name]
+				if !known {
+					return name
+				}
+				if c, ok := patConstOf[name]; ok {
+					return c
+				}
+				c := fmt.Sprintf("|pat!%d|", len(patConstOf))
+				patConstOf[name] = c
+				pendingPatConsts = append(pendingPatConsts, fmt.Sprintf("(declare-fun %s () %s)\n(assert (= %s %s))", c, sort, c, name))
+				return c
+			})
+			np = append(np, Term{text, t.Sort})
+		}
+		stillDefined := false
+		for _, t := range np {
 			for _, name := range nameRe.FindAllString(t.S, -1) {
 				if _, isDef := currentDefs[name]; isDef {
-					ok = false
+					stillDefined = true
 				}
 			}
 		}
-		if ok {
-			usable = append(usable, p)
+		if !stillDefined {
+			usable = append(usable, np)
 		}
 	}
 	patterns = usable
@@ -329,6 +351,20 @@ type Script struct {
 // currentDefs is the definition table of the script being generated (generation is single threaded).
 var currentDefs = map[string]string{}
 
+// sorts of the defined names, the trigger constants introduced for them, and their not yet emitted declarations
+var currentDefSorts = map[string]Sort{}
+var patConstOf = map[string]string{}
+var pendingPatConsts []string
+
+// flushPatConsts emits the declarations of trigger constants created since the last call (called before any line
+// that may mention them is appended, and before an obligation records its position in the script).
+func (s *Script) flushPatConsts() {
+	for _, d := range pendingPatConsts {
+		s.lines = append(s.lines, scriptLine{lkDecl, d})
+	}
+	pendingPatConsts = nil
+}
+
 var nameRe = regexp.MustCompile(`\|[^|]*\|`)
 
 func (s *Script) defText(name string) (string, bool) {
@@ -358,8 +394,10 @@ func (s *Script) Define(hint string, t Term) Term {
 	if len(t.S) < 24 && !strings.Contains(t.S, " ") {
 		return t // atoms need no name
 	}
+	s.flushPatConsts()
 	n := s.fresh(hint)
 	s.lines = append(s.lines, scriptLine{lkDefine, fmt.Sprintf("(define-fun %s () %s %s)", n, t.Sort, t.S)})
+	currentDefSorts[n] = t.Sort
 	if s.defs == nil {
 		s.defs = map[string]string{}
 	}
@@ -372,6 +410,7 @@ func (s *Script) Assume(t Term) {
 	if t.S == "true" {
 		return
 	}
+	s.flushPatConsts()
 	s.lines = append(s.lines, scriptLine{lkAssume, "(assert " + t.S + ")"})
 }
 
